@@ -17,14 +17,14 @@ from .. import common as cm
 
 PROP = 'C15'
 THEOREMS = [
-    'C15.vacancy_spec', 'C15.interstitial_spec', 'C15.substitutional_spec', 'C15.dumbbell_spec',
-    'C15.same_cell', 'C15.old_id_present', 'C15.old_id_correct', 'C15.old_id_composes',
-    'C15.old_id_composes_fresh', 'C15.new_atom_old_id',
-    'C15.site_of_image', 'C15.pos_eq_index_selection', 'C15.pos_eq_index_cartesian',
-    'C15.pos_eq_index_relative', 'C15.index_normalisation', 'C15.index_negative',
-    'C15.refuse_absent_site', 'C15.refuse_ambiguous_site', 'C15.refuse_occupied_interstitial',
-    'C15.refuse_same_type', 'C15.refuse_index_out_of_range', 'C15.refuse_both_or_neither',
-    'C15.refusals_propagate', 'C15.point_dispatch', 'C15.input_unchanged',
+    'C15.vacancy_spec', 'C15.interstitial_spec', 'C15.substitutional_spec', 'C15.dumbbell_spec', 'C15.same_cell',
+    'C15.old_id_present', 'C15.old_id_correct', 'C15.interstitial_old', 'C15.substitutional_old', 'C15.dumbbell_old',
+    'C15.old_id_composes', 'C15.old_id_composes_fresh',
+    'C15.site_of_image', 'C15.pos_eq_index_selection', 'C15.pos_eq_index_cartesian', 'C15.pos_eq_index_relative',
+    'C15.index_normalisation', 'C15.index_negative',
+    'C15.refuse_absent_site', 'C15.refuse_ambiguous_site', 'C15.refuse_occupied_interstitial', 'C15.refuse_same_type',
+    'C15.refuse_index_out_of_range', 'C15.refuse_both_or_neither', 'C15.refusals_propagate',
+    'C15.point_dispatch', 'C15.input_unchanged',
 ]
 PARTIAL = {
     'periodic image beyond the adjacent cells': 'pos_eq_index_selection is proved for a position that is the atom '
